@@ -382,6 +382,55 @@ func runLongLCS(c *core.Ctx) {
 	}
 }
 
+// runMediumLCS: pairs of one to a few thousand bases (matrices of 2^20 cells and more) that are NOT
+// alike: unrelated, block-rearranged (X+Y against Y+X'), nested, or separated by hundreds of edits,
+// with no bound, with the exact distance as bound and with bounds tied to the lengths. The full
+// matrix reference is still affordable here (a few million cells).
+func runMediumLCS(c *core.Ctx) {
+	var shared []uint64
+	per := c.Pick(5, 20)
+	for k := 0; k < per; k++ {
+		r := c.Rng
+		n := []int{700, 1000, 1024, 1100, 1500, 2000, 2600}[r.Intn(7)] + r.Intn(50)
+		a := gen.DNA(r, n)
+		var b []byte
+		shape := []string{"unrelated", "rearranged", "rearranged", "rearranged", "nested", "many-edits", "few-edits", "tail"}[r.Intn(8)]
+		switch shape {
+		case "unrelated":
+			b = gen.DNA(r, max(600, n+r.Intn(401)-200))
+		case "rearranged":
+			cut := n/16 + r.Intn(3*n/4)
+			b = append(append([]byte{}, a[cut:]...), gen.Mutate(r, a[:cut], r.Intn(6))...)
+		case "nested":
+			from := r.Intn(n / 3)
+			b = gen.Mutate(r, a[from:from+n/2+r.Intn(n/6)], r.Intn(8))
+		case "many-edits":
+			b = gen.Mutate(r, a, n/10+r.Intn(n/5))
+		case "few-edits":
+			b = gen.Mutate(r, a, r.Intn(10))
+		default:
+			b = append(gen.Mutate(r, a, r.Intn(5)), gen.DNA(r, n/8+r.Intn(n/4))...)
+		}
+		if len(b) == 0 {
+			continue
+		}
+		if r.Intn(4) == 0 {
+			a, _ = gen.Ambiguate(r, a, 1+r.Intn(20))
+		}
+		lcs, ali := ref.LCS(a, b, ref.Compatible)
+		d := ali - lcs
+		m := max(len(a), len(b))
+		bounds := []int{-1, d, d - 1, d + 1, m / 8, m/8 + 1, m / 4}
+		lcsCase(c, a, b, bounds, &shared)
+		c.Count("evaluations", len(bounds))
+		c.Count("medium."+shape, 1)
+		c.Key("med/%s/%d/%d/%v", shape, n/300, min(d*16/m, 20), len(a)*len(b) >= 1<<20)
+		if k == 0 {
+			c.Sample(map[string]any{"shape": shape, "len_a": len(a), "len_b": len(b), "ref_lcs": lcs, "ref_alilen": ali, "bounds": bounds})
+		}
+	}
+}
+
 // runConcurrent: the kernels are called by parallel workers (obiclean, obitag, obiconsensus ...): every
 // answer given while other goroutines run the same kernels must be the answer given alone. The
 // sequential answers are themselves compared with the reference first.
@@ -481,7 +530,7 @@ func init() {
 		ID:    "C09",
 		Level: "exploration",
 		Rule: "FastLCSScore / FastLCSEGFScore / D1Or0 executed next to a full-matrix DP with an independent IUPAC table: exhaustively on all ordered pairs of strings over {a,c,g,t} of length <= 4 (quick) / <= 5 (thorough) x bounds -1,0,1,2,3 (D1Or0: length <= 5 / 6), all 16x16 IUPAC symbol pairs, and random pairs up to 400 nt with ambiguity codes, mixed case, bounds d-1, d, d+1 around the true number of differences; reused vs fresh scratch buffer; both argument orders; 2-16 goroutines calling the three kernels at once (fresh and per-goroutine buffers) must get the answers the kernels give alone, also under the race detector. " +
-			"Added later: pairs of 9-65 kb (banded reference, self-checked against the full matrix), the non-letter symbols of joined reads ('.', '-'). " +
+			"Added later: pairs of 9-65 kb (banded reference, self-checked against the full matrix), the non-letter symbols of joined reads ('.', '-'). lcs-medium: dissimilar, nested and block-rearranged pairs of 0.7-2.6 kb against the full matrix, unbounded and with bounds tied to the distance and to the lengths. " +
 			"distinct_nontrivial = distinct (first string, length of second string) classes of non-empty pairs (exhaustive part; the pairs themselves are counted in counters.exhaustive_pairs) + distinct (length class, length difference, true difference count, ambiguity rate) classes (random part)",
 		Assume: []string{"the reference DP (max LCS, then shortest alignment) is the meaning of 'LCS length and shortest alignment achieving it'", "sequences are non-empty, over the IUPAC alphabet plus the symbols '.' and '-' (which match only themselves); the alignment is shorter than 2^16 columns (score and length are packed in one word)"},
 		Subs: []core.Sub{
@@ -489,6 +538,7 @@ func init() {
 			{Name: "lcs-exhaustive", N: core.Const(nShards, nShards), Run: runExhaustiveLCS},
 			{Name: "lcs-random", N: core.Const(64, 400), Run: runRandomLCS},
 			{Name: "lcs-long", N: core.Const(8, 48), Run: runLongLCS},
+			{Name: "lcs-medium", N: core.Const(16, 64), Run: runMediumLCS},
 			{Name: "egf", N: core.Const(16, 64), Run: runEGF},
 			{Name: "d1-exhaustive", N: core.Const(nShards, nShards), Run: runExhaustiveD1},
 			{Name: "d1-random", N: core.Const(32, 128), Run: runRandomD1},
